@@ -6,7 +6,8 @@ def run(tier):
     rep = common.Report('C01', tier, 'translation_validation')
     common.build_driver()
     import families3
-    progs = list(families2.all_core(tier)) + list(families3.g_deep(tier))
+    import families4
+    progs = list(families2.all_core(tier)) + list(families3.g_deep(tier)) + list(families4.g_wave4(tier))
     import families
     progs += [p for p in families.g_peep(tier) if p.pid.startswith(('peep/a/', 'peep/f/', 'peep/f2/'))]      # aliasing and flag-interplay sequences
     stats, samples, results = runner.against_reference(rep, progs)
